@@ -128,6 +128,7 @@ inline int run_main(int argc, char **argv) {
         o += "\"evaluations\":" + std::to_string(ctx.evaluations);
         o += ",\"distinct\":" + std::to_string(ctx.distinct.size());
         o += ",\"excluded_known\":" + std::to_string(ctx.excluded_known);
+        o += ",\"nontrivial_untracked\":" + std::to_string(ctx.nontrivial_untracked);
         char wb[64]; snprintf(wb, sizeof wb, "%.3f", wall);
         o += std::string(",\"wall_s\":") + wb;
         o += ",\"sub_evals\":{";
